@@ -14,6 +14,15 @@ func (p *Parser) parseBlock(parser *Parser) (Node, error) {
 	blockName := parser.tokens[parser.tokenIndex].Value
 	parser.tokenIndex++
 
+	// A block inside a block of the same name would render itself without end
+	for _, open := range parser.openBlocks {
+		if open == blockName {
+			return nil, fmt.Errorf("block '%s' is nested in a block of the same name at line %d", blockName, blockLine)
+		}
+	}
+	parser.openBlocks = append(parser.openBlocks, blockName)
+	defer func() { parser.openBlocks = parser.openBlocks[:len(parser.openBlocks)-1] }()
+
 	// Expect the block end token
 	if parser.tokenIndex >= len(parser.tokens) || !isBlockEndToken(parser.tokens[parser.tokenIndex].Type) {
 		return nil, fmt.Errorf("expected block end token after block name at line %d", blockLine)
